@@ -1,4 +1,5 @@
 import NxProofs.SwitchMore
+import NxProofs.SwitchTicket
 /-!
 # C18 — every supported console version yields well-formed, era-consistent requests
 
@@ -132,6 +133,30 @@ theorem auth_digital_cert_exact (api title : Nat) (cert : Cert) (ec ek : String)
     (∃ r, digitalCert api title cert ec ek = .ok r) ↔
       (api = 3 ∧ ∃ b, cert = .bytes b ∧ ticketOk b title = true) ∨ (api ≥ 4 ∧ tokenOk cert = true) ∨ api < 3 :=
   digitalCert_ok_iff api title cert ec ek
+
+/-- `verify_ticket` byte by byte: a raw ticket is accepted iff it has 0x2C0 bytes, starts with `04 00 01 00` (signature
+    type 0x10004, little endian), carries the title id big-endian at 0x2A0..0x2A7, has zeros at 0x2A8..0x2AE and its byte
+    0x2AF (end of the rights id) equals the master key revision byte 0x285 -/
+theorem ticket_validation_bytewise (t : Bytes) (titleId : Nat) : ticketOk t titleId = true ↔ ticketBytesOk t titleId :=
+  ticketOk_iff_bytes t titleId
+
+/-- every byte the check covers matters: a ticket that differs from an accepted one in exactly one of the bytes
+    0..3, 0x285, 0x2A0..0x2AF is refused -/
+theorem ticket_single_byte_mutation_refused (t t' : Bytes) (titleId i : Nat)
+    (hi : i < 4 ∨ i = 0x285 ∨ (0x2A0 ≤ i ∧ i < 0x2B0)) (hok : ticketOk t titleId = true)
+    (hdiff : t'.getD i 0 ≠ t.getD i 0) (hsame : ∀ j, j ≠ i → t'.getD j 0 = t.getD j 0) :
+    ticketOk t' titleId = false :=
+  ticket_mutation_refused t t' titleId i hi hok hdiff hsame
+
+/-- the joint change of the revision byte and the last rights-id byte to one value keeps a ticket accepted -/
+theorem ticket_consistent_revision_change_accepted (t t' : Bytes) (titleId : Nat) (x : UInt8)
+    (hok : ticketOk t titleId = true) (hlen : t'.length = t.length) (h1 : t'.getD 0x285 0 = x) (h2 : t'.getD 0x2AF 0 = x)
+    (hsame : ∀ j, j ≠ 0x285 → j ≠ 0x2AF → t'.getD j 0 = t.getD j 0) : ticketOk t' titleId = true :=
+  ticket_consistent_revision_accepted t t' titleId x hok hlen h1 h2 hsame
+
+-- the hypotheses are satisfiable: an accepted ticket, and the same ticket with byte 0x2A8 set (refused)
+example : ticketOk (sampleTicket 0) 0x0100ABCD12345000 = true ∧ ticketOk (sampleTicket 1) 0x0100ABCD12345000 = false ∧
+    (sampleTicket 1).getD 0x2A8 0 ≠ (sampleTicket 0).getD 0x2A8 0 := by decide +kernel
 
 /-- dragons: without a device id every call but the dauth-style one is refused; that one exists from 15.0.0 on -/
 theorem dragons_device_id_required (s : Dragons) (hn : s.uaNim = none) (c : DragonsCall) :
